@@ -123,8 +123,48 @@ func (fx *FnExec) loopEnv(st *State, fr *frame, h *loopHdr) *evalEnv {
 			}
 		}
 	}
+	fx.indexAlias(env, st, h)
 	env.iters = st.loopIters
 	return env
+}
+
+// indexAlias: a loop written `for i := 0; i < n; i++` has no rangeindex of its
+// own; a contract written for the range form keeps binding with rangeindex
+// standing for i - 1 (the index of the last completed iteration at the loop
+// head, of the current element minus one inside the body - as in range loops).
+func (fx *FnExec) indexAlias(env *evalEnv, st *State, h *loopHdr) {
+	var cand *ssa.Phi
+	n := 0
+	for _, ins := range h.header.Instrs {
+		phi, ok := ins.(*ssa.Phi)
+		if !ok {
+			break
+		}
+		if phi.Comment == "rangeindex" {
+			return
+		}
+		if _, live := st.vals[phi]; !live || len(phi.Edges) != 2 || fx.sortOf(phi.Type()) != "Int" {
+			continue
+		}
+		zero, step := false, false
+		for _, e := range phi.Edges {
+			if c, ok := e.(*ssa.Const); ok && c.Value != nil && c.Int64() == 0 {
+				zero = true
+			}
+			if bo, ok := e.(*ssa.BinOp); ok && bo.Op == token.ADD && bo.X == ssa.Value(phi) {
+				if c, ok := bo.Y.(*ssa.Const); ok && c.Value != nil && c.Int64() == 1 {
+					step = true
+				}
+			}
+		}
+		if zero && step {
+			cand = phi
+			n++
+		}
+	}
+	if n == 1 {
+		env.vars["rangeindex"] = cval{t: "(- " + st.vals[cand] + " 1)", typ: cand.Type(), sort: "Int"}
+	}
 }
 
 // frameEnv: names visible to contract expressions inside a frame: parameters,
@@ -234,6 +274,43 @@ func (fx *FnExec) frameEnv(st *State, fr *frame) *evalEnv {
 		}
 		if t, ok := st.vals[v]; ok {
 			env.vars[name] = cval{t: t, typ: v.Type(), sort: fx.sortOf(v.Type()), lv: st.lvs[v]}
+		}
+	}
+	// A contract written for `for i, v := range s` keeps binding after the loop
+	// is rewritten as `for i := 0; i < n; i++`: rangeindex is the index of the
+	// last completed iteration, i.e. i - 1, when the function has exactly one
+	// live counter of the shape phi(0, phi + 1).
+	if _, have := env.vars["rangeindex"]; !have {
+		var cand *ssa.Phi
+		n := 0
+		for _, b := range fr.fn.Blocks {
+			for _, ins := range b.Instrs {
+				phi, ok := ins.(*ssa.Phi)
+				if !ok {
+					break
+				}
+				if _, live := st.vals[phi]; !live || len(phi.Edges) != 2 || fx.sortOf(phi.Type()) != "Int" {
+					continue
+				}
+				zero, step := false, false
+				for _, e := range phi.Edges {
+					if c, ok := e.(*ssa.Const); ok && c.Value != nil && c.Int64() == 0 {
+						zero = true
+					}
+					if bo, ok := e.(*ssa.BinOp); ok && bo.Op == token.ADD && bo.X == ssa.Value(phi) {
+						if c, ok := bo.Y.(*ssa.Const); ok && c.Value != nil && c.Int64() == 1 {
+							step = true
+						}
+					}
+				}
+				if zero && step {
+					cand = phi
+					n++
+				}
+			}
+		}
+		if n == 1 {
+			env.vars["rangeindex"] = cval{t: "(- " + st.vals[cand] + " 1)", typ: cand.Type(), sort: "Int"}
 		}
 	}
 	for _, fv := range fr.fn.FreeVars {
@@ -448,6 +525,30 @@ func (fx *FnExec) loopEnter(st *State, fr *frame, h *loopHdr, b, pred *ssa.Basic
 					// range-style loops: the header tests (phi + c) < bound with a
 					// loop-invariant bound, so a value that came round the back
 					// edge is below the bound
+					// index-style loops: the header tests phi < len(x) with x
+					// defined outside the loop, and the only way round is phi + 1
+					// from an iteration that passed the test: phi <= len(x)
+					if br, ok := b.Instrs[len(b.Instrs)-1].(*ssa.If); ok && c.Int64() == 1 {
+						if cmp, ok := br.Cond.(*ssa.BinOp); ok && cmp.Op == token.LSS && cmp.X == ssa.Value(phi) {
+							if lc, ok := cmp.Y.(*ssa.Call); ok {
+								if bl, ok := lc.Common().Value.(*ssa.Builtin); ok && bl.Name() == "len" {
+									arg := lc.Common().Args[0]
+									outside := true
+									if ai, isIns := arg.(ssa.Instruction); isIns && h.body[ai.Block()] {
+										outside = false
+									}
+									if at, has := st.vals[arg]; has && outside {
+										switch arg.Type().Underlying().(type) {
+										case *types.Slice:
+											st.assume("(<= " + st.vals[phi] + " (slen " + at + "))")
+										case *types.Basic:
+											st.assume("(<= " + st.vals[phi] + " (strlen " + at + "))")
+										}
+									}
+								}
+							}
+						}
+					}
 					if br, ok := b.Instrs[len(b.Instrs)-1].(*ssa.If); ok {
 						if cmp, ok := br.Cond.(*ssa.BinOp); ok && cmp.Op == token.LSS && cmp.X == ssa.Value(bo) && bo.Block() == b {
 							if bi, isIns := cmp.Y.(ssa.Instruction); !isIns || !h.body[bi.Block()] {
